@@ -66,6 +66,18 @@ def targeted(rng):
         b.finals = [q for q in st if rng.random() < 0.5] or [st[0]]
         if rng.random() < 0.3: b.finals = list(a.finals)
         out.append(line(a, b) + " SHARE %d" % len(base.rules))
+    for _ in range(400):   # rule-owning and final states of the operands are disjoint, but one operand mentions, only as a child, a number that is a
+        a = gen.rand_ta_sized(rng, 3, 7, leafbias=0.4, pfinal=0.5)          # live state of the other (a dead rule there): Union must keep them apart
+        b = gen.rand_ta_sized(rng, 3, 7, leafbias=0.3, pfinal=0.6)
+        b = b.rename({q: q + 10 for q in b.states()})
+        sa = sorted(a.states()) or [0]
+        rules = []
+        for (f, p, cs) in b.rules:
+            if cs and rng.random() < 0.4:
+                cs = list(cs); cs[rng.randrange(len(cs))] = rng.choice(sa); cs = tuple(cs)
+            rules.append((f, p, cs))
+        b.rules = rules
+        out.append(line(a, b) if rng.random() < 0.5 else line(b, a))
     for _ in range(150):   # useless / unproductive pairs
         a = gen.rand_ta_sized(rng, 4, 8, leafbias=0.15, pfinal=0.3); b = gen.rand_ta_sized(rng, 4, 8, leafbias=0.15, pfinal=0.3)
         out.append(line(a, b))
@@ -96,7 +108,7 @@ def shrink_candidates(c):
     return gen.shrink_automata(c)
 def explain(c, impl, verd):
     return ("case = bin <A> <B> PL <prefilled lhs map> PR <prefilled rhs map>; impl = U <Union result> ML/MR <final maps> D <UnionDisjointStates|SKIP> "
-            "X <Intersection> PM <product map> XB <IntersectionBU> PM <product map> I <operands afterwards>; gates: *_lang = exact union/intersection "
+            "X <Intersection> PM <product map> XB <IntersectionBU> PM <product map> UN/XN/XBN <the same operations called without the optional maps> I <operands afterwards>; gates: *_lang = exact union/intersection "
             "language (C02_gate_union / C02_gate_isect), *_names = every result state is named by the reported map and has the named state's (pair's) "
             "language, operand_changed, union_prefill_kept")
 
